@@ -552,15 +552,16 @@ func (w *World) ruleTagReadErrors(r *Report, rule string) {
 // ---- R5: streaming entry points keep the per-stream tables ----
 
 func (w *World) ruleStreamingPersist(r *Report, rule string) {
-	type ep struct{ name, side string }
-	eps := []ep{{"(*Encoder).WriteObject", "enc"}, {"(*Encoder).WriteData", "enc"}, {"(*Decoder).ReadObject", "dec"}, {"(*goHessian).Write", "enc"}, {"(*goHessian).Read", "dec"}}
+	// the entry points that continue a stream are discovered by signature and
+	// reachability (roles_stream.go), so a renamed serializer type or method is
+	// still covered; all four roles must be present
+	eps := w.streamingEntryPoints()
 	n := 0
+	roles := map[string]bool{}
 	for _, e := range eps {
-		fn := w.fn(e.name)
-		if fn == nil {
-			r.undecided(rule, e.name, "-", "streaming entry point not found")
-			continue
-		}
+		fn := e.fn
+		ename := fnName(fn)
+		roles[fmt.Sprintf("%s/composite=%v", e.side, e.composite)] = true
 		n++
 		reach := w.reachPkg(fn)
 		var bad []string
@@ -604,7 +605,14 @@ func (w *World) ruleStreamingPersist(r *Report, rule string) {
 		if len(bad) > 0 {
 			fact = strings.Join(uniq(bad), "; ")
 		}
-		r.add(rule, e.name, w.pos(fn.Pos()), len(bad) == 0, fact)
+		r.add(rule, ename, w.pos(fn.Pos()), len(bad) == 0, fact)
+	}
+	for _, want := range []struct{ key, what string }{
+		{"enc/composite=false", "an encoder method that continues a stream"}, {"dec/composite=false", "a decoder method that continues a stream"},
+		{"enc/composite=true", "a serializer method that continues an output stream"}, {"dec/composite=true", "a serializer method that continues an input stream"}} {
+		if !roles[want.key] {
+			r.undecided(rule, want.what, "-", "streaming entry point not found")
+		}
 	}
 	r.floor(rule, n, 5)
 	// no buffered reader may wrap a reader supplied by the caller: it would
